@@ -348,6 +348,13 @@ def run_actions(actions, phase, ctx):
                  if ORIG_STDOUT is not None else None,
                  err_is_orig=(sys.stderr is ORIG_STDERR)
                  if ORIG_STDERR is not None else None)
+        elif do == 'drop_sys_path':
+            # a test that cleans sys.path of everything below the world
+            # (tests that juggle sys.path and do not put it back)
+            root = os.path.dirname(os.environ.get('ZTR_WORLD', ''))
+            if root:
+                sys.path[:] = [x for x in sys.path
+                               if not x.startswith(root)]
         elif do == 'write_file':
             with open(a['path'], 'w') as f:
                 f.write(a.get('text', ''))
@@ -949,7 +956,7 @@ def build_module(modname, filename=None):
             raise make_exc(fault.get('exc', 'ImportError'),
                            fault.get('msg', 'cannot import ' + modname))
         if what == 'sysexit':
-            raise SystemExit(2)
+            raise SystemExit(fault.get('code', 2))
     ns = {}
     node = ms['suite']
     if ms.get('use_test_suite', True):
